@@ -7,7 +7,7 @@
    The recogniser is a per-node oracle annotation (TypeAdapter(Properties) in isolation): the theorems hold for EVERY
    annotation and every configuration [c] of the casting algorithm. *)
 From Coq Require Import List Bool NArith ZArith.
-From PV Require Import Base.Str Base.Value Typed.GValue Typed.Cast Typed.Collect Typed.PdSpec Typed.TypedDocs Typed.PdCheck Typed.Witness.
+From PV Require Import Base.Str Base.Value Typed.GValue Typed.Cast Typed.Collect Typed.PdSpec Typed.PdFull Typed.TypedDocs Typed.PdCheck Typed.Witness.
 From PV Require Import Typed.CastShape Typed.CollectFacts.
 From Coq Require Import Permutation Sorted.
 From PVGen Require PdPaths.
@@ -71,10 +71,16 @@ Print Assumptions C13_conditions_of_document.
    known ones, and each is read by its class's accessor or by its dedicated accessor (IAM role trust policy) *)
 Theorem C13_typed_paths :
   forall t ov paths, In (t, (ov, paths)) PdPaths.PD_TABLE ->
-  exists r, In r SPEC_TABLE /\ c_type r = t /\ c_paths r = paths /\ ov = is_override (c_acc r) /\
+  exists r, In r FULL_TABLE /\ c_type r = t /\ c_paths r = paths /\ ov = is_override (c_acc r) /\
             forallb (path_covered r) paths = true.
 Proof. exact typed_paths. Qed.
 Print Assumptions C13_typed_paths.
+(* FULL_TABLE = the hand-written rows of the 18 classes this development was written against (PdSpec.SPEC_TABLE) + one walking row
+   per class modelled since (a new class must inherit Resource.policy_documents: an override is refused by Typed/PdCheck.v);
+   the known rows are all still generated, unchanged *)
+Theorem C13_known_rows_unchanged : forall r, In r SPEC_TABLE -> In (to_generated r) PdPaths.PD_TABLE.
+Proof. exact known_rows_unchanged. Qed.
+Print Assumptions C13_known_rows_unchanged.
 Theorem C13_typed_generic_field :
   forall (c : cfg) (d : list (str * gvalue)) (r : option recog), generic_obj c (GDict d r) = resource_embedded false c d.
 Proof. exact typed_generic_field. Qed.
